@@ -597,6 +597,55 @@ def rule_ldouble(chk, prog, tier):
     r.exhaustive = True
 
 
+# ------------------------------------------------------------------ C01.i designators
+
+def rule_designators(chk, prog, tier):
+    r = chk.rule('C01.i', 'member designators resolve to the member\'s offset and type, through anonymous struct/union members, leaving the initializer cursor one level below the designated member (two through an anonymous member)',
+                 floor=8, oracle='C11 6.7.9p7, 6.7.2.1p13')
+    fn = prog.require_func('findmember', 'init.c')
+    def mkm(it, name, t, off, nxt):
+        o = Obj('member:%s' % name, 'heap')
+        o.f[('name',)] = Ptr(it.mkstr(list(name.encode()), name), (0,)) if name else None
+        o.f[('type',)] = t; o.f[('qual',)] = 0; o.f[('offset',)] = off; o.f[('bits', 'before')] = 0; o.f[('bits', 'after')] = 0; o.f[('next',)] = nxt
+        return Ptr(o, ())
+    layouts = {
+        # struct { int a; union { int x; float y; }; int c; struct { char p; long q; }; int d; }
+        'names': {'a': (0, 1), 'x': (4, 2), 'y': (4, 2), 'c': (8, 1), 'p': (16, 2), 'q': (24, 2), 'd': (32, 1), 'zz': None},
+    }
+    for name, want in layouts['names'].items():
+        for depth in (0, 3):
+            def runner(it):
+                w = World(prog, it=it, target='x86_64-sysv')
+                I, F, C, L = w.t('int'), w.t('float'), w.t('char'), w.t('long')
+                un = w.mkstruct(size=4, align=4, kind='TYPEUNION')
+                un.obj.f[('u', 'structunion', 'members')] = mkm(it, 'x', I, 0, mkm(it, 'y', F, 0, None))
+                st2 = w.mkstruct(size=16, align=8)
+                st2.obj.f[('u', 'structunion', 'members')] = mkm(it, 'p', C, 0, mkm(it, 'q', L, 8, None))
+                st = w.mkstruct(size=40, align=8)
+                st.obj.f[('u', 'structunion', 'members')] = mkm(it, 'a', I, 0, mkm(it, None, un, 4, mkm(it, 'c', I, 8, mkm(it, None, st2, 16, mkm(it, 'd', I, 32, None)))))
+                p = Obj('p', 'local', 'struct initparser')
+                for i in range(32):
+                    p.f[('obj', i, 'offset')] = 0; p.f[('obj', i, 'type')] = None; p.f[('obj', i, 'iscur')] = 0
+                p.f[('obj', depth, 'type')] = st; p.f[('obj', depth, 'offset')] = 100
+                p.f[('sub',)] = Ptr(p, ('obj', depth))
+                it.models['fatal'] = lambda i2, a, e: (_ for _ in ()).throw(Terminal('fatal', a))
+                found = it.call(fn, [Ptr(p, ()), Ptr(it.mkstr(list(name.encode()), name), (0,))])
+                sub = p.f[('sub',)]
+                return bool(found), sub.path[1] - depth, it.load(p, sub.path + ('offset',)) - 100 if found else None
+            runs = explore(prog, runner, {}, max_runs=4)
+            if len(runs) != 1 or runs[0].outcome != 'return':
+                raise AnalysisBroken('findmember(%s): %s' % (name, [(x.outcome, x.detail) for x in runs]))
+            found, levels, off = runs[0].value
+            if want is None:
+                ok = not found and levels == 0
+                det = 'an unknown member must not be found and must leave the cursor where it was; found=%s cursor moved %d' % (found, levels)
+            else:
+                ok = found and off == want[0] and levels == want[1]
+                det = 'expected offset %d, cursor %d level(s) down; got found=%s offset=%s levels=%s' % (want[0], want[1], found, off, levels)
+            r.instance(ok, 'designator:.%s@depth%d' % (name, depth), 'init.c:%s' % fn.get('line'), det)
+    r.exhaustive = True
+
+
 def run(chk, tier):
     prog = facts.programs()['cproc-qbe']
     chk.guard('C01.a', lambda: rule_binop(chk, prog, tier))
@@ -606,3 +655,4 @@ def run(chk, tier):
     chk.guard('C01.e', lambda: rule_jnz(chk, prog, tier))
     chk.guard('C01.g', lambda: rule_bits(chk, prog, tier))
     chk.guard('C01.h', lambda: rule_ldouble(chk, prog, tier))
+    chk.guard('C01.i', lambda: rule_designators(chk, prog, tier))
